@@ -106,6 +106,21 @@ func (fr *Frame) callWith(st *State, c *ssa.CallCommon, in ssa.Instruction, args
 		}
 	}
 	if callee == nil {
+		// sdk.NewInt, sdk.OneDec, ...: package-level function variables aliasing cosmossdk.io/math
+		if u, ok := c.Value.(*ssa.UnOp); ok {
+			if g, ok := u.X.(*ssa.Global); ok && g.Pkg != nil && g.Pkg.Pkg.Path() == "github.com/cosmos/cosmos-sdk/types" {
+				for _, name := range []string{"cosmossdk.io/math." + g.Name(), "cosmossdk.io/math.Legacy" + g.Name()} {
+					if m := libModel(ex, name); m != nil {
+						if res, ok := m(fr, st, c, args); ok {
+							return res
+						}
+					}
+				}
+				if isPureExternal("cosmossdk.io/math." + g.Name()) {
+					return fr.freshResults(st, sig, sanitize(g.Name()))
+				}
+			}
+		}
 		root := fr
 		for root.parent != nil {
 			root = root.parent
